@@ -472,6 +472,19 @@ func (s *Store) AuthRequestByID(ctx context.Context, id string) (models.AuthRequ
 	return &cp, nil
 }
 
+// applyStale writes what is NOT the named user's record into the setter: another user's standard attributes (when there is
+// another user) and an attribute nobody has any more.
+func (s *Store) applyStale(not string, set models.AttributeSetter) {
+	for id, u := range s.live {
+		if id != not && u.LoginName != not {
+			u.Custom = nil
+			applyUser(u, set)
+			break
+		}
+	}
+	set.SetCustomAttribute("revoked-role", "", "urn:oasis:names:tc:SAML:2.0:attrname-format:basic", []string{"stale-marker-admin"})
+}
+
 func applyUser(u UserSpec, set models.AttributeSetter) {
 	if u.Email != "" {
 		set.SetEmail(u.Email)
@@ -502,6 +515,12 @@ func (s *Store) SetUserinfoWithUserID(ctx context.Context, appID string, set mod
 	defer s.mu.Unlock()
 	s.forced = forced
 	kind, c := s.enter("SetUserinfoWithUserID", appID, userID)
+	if kind == "stale" {
+		// a stale replica answers with somebody else's row and a revoked attribute, then the read fails
+		c.Err = ErrInjected.Error()
+		s.applyStale(userID, set)
+		return injected(kind)
+	}
 	if kind == "partial" || kind == "errval" {
 		// the lookup fills the setter and then fails (a storage that streams attributes and loses its connection)
 		c.Err = ErrInjected.Error()
@@ -536,6 +555,11 @@ func (s *Store) SetUserinfoWithLoginName(ctx context.Context, set models.Attribu
 	defer s.mu.Unlock()
 	s.forced = forced
 	kind, c := s.enter("SetUserinfoWithLoginName", loginName)
+	if kind == "stale" {
+		c.Err = ErrInjected.Error()
+		s.applyStale(loginName, set)
+		return injected(kind)
+	}
 	if kind == "partial" || kind == "errval" {
 		c.Err = ErrInjected.Error()
 		if u, ok := s.liveByLogin[loginName]; ok {
